@@ -1163,8 +1163,15 @@ class PseudoNetCDFFile(PseudoNetCDFSelfReg, object):
                 print(vk, end='', flush=True)
             elif verbose > 0:
                 print('.', end='', flush=True)
+            vfill = fill_value
+            if vv.dtype.kind in 'iu' and fill_value is not None:
+                # e.g., the default -999 does not exist in unsigned or
+                # 8-bit integers; use the extreme value of the type
+                vinfo = np.iinfo(vv.dtype)
+                if not (vinfo.min <= fill_value <= vinfo.max):
+                    vfill = vinfo.max if vinfo.min == 0 else vinfo.min
             newvar = outf.copyVariable(
-                vv, key=vk, fill_value=fill_value, withdata=False
+                vv, key=vk, fill_value=vfill, withdata=False
             )
             if vk in coordkeys and not coords:
                 newvar[...] = vv[...]
